@@ -592,6 +592,7 @@ struct Out
   std::vector<double> dv;
   std::string txt;
   long digest = 0;
+  std::string tag;       // outcome class of a noise call (not compared)
   template<class A> void io(A& a) { a("status", status)("noiseThrew", noiseThrew)("err", err)("iv", iv)("dv", dv)("txt", txt)("digest", digest); }
 };
 static void outMat(Out& o, const AMatrix& m)
@@ -639,7 +640,8 @@ static int varRank(int k, int nvar) { return (k % (nvar + 1)) - 1; } // -1 (all)
 
 static void runCall(World& w, const Call& c, Out& o, bool noise);
 
-static void runGlobal(World& w, const Call& c)
+// the call executed while a global switch is set
+static Call nestedOf(const Call& c)
 {
   Call n;
   n.kind = c.b % K_NOBS;
@@ -652,7 +654,11 @@ static void runGlobal(World& w, const Call& c)
   n.i1 = c.i1;
   n.i2 = c.i2;
   if (n.kind == K_SELECT && n.i1.empty()) n.i1.push_back(c.e);
-  Out dummy;
+  return n;
+}
+static void runGlobal(World& w, const Call& c, Out& dummy)
+{
+  Call n = nestedOf(c);
   switch (c.a & 7)
   {
     case 0:
@@ -732,6 +738,7 @@ static void runCall(World& w, const Call& c, Out& o, bool noise)
         case 2: outMat(o, m->evalCovMatrixSymmetric(A, iv, n1)); break;
         default: outMat(o, m->evalCovMatrixSymmetricOptim(A, iv, n1)); break;
       }
+      if (o.iv.size() >= 2 && o.iv[o.iv.size() - 2] == 0) o.tag = "empty";
       break;
     }
     case K_KRIG:
@@ -916,7 +923,7 @@ static void runCall(World& w, const Call& c, Out& o, bool noise)
       }
       break;
     }
-    case K_GLOBAL: runGlobal(w, c); break;
+    case K_GLOBAL: runGlobal(w, c, o); break;
     case K_CREATE:
     {
       switch (c.a % 4)
@@ -1011,7 +1018,7 @@ static void noopDeath() {}
 static bool verbose() { return getenv("C10_VERBOSE") != nullptr; }
 
 // Body of a child process: never returns.
-static void childMain(const HistCase& c, const std::vector<int>& noiseIdx, int fd)
+static void childMain(const HistCase& c, const std::vector<Call>& noise, int fd)
 {
   stats().outPrefix.clear();
   __sanitizer_set_death_callback(noopDeath);
@@ -1027,22 +1034,23 @@ static void childMain(const HistCase& c, const std::vector<int>& noiseIdx, int f
   {
     World w;
     buildWorld(c, w);
-    for (int idx : noiseIdx)
+    for (size_t idx = 0; idx < noise.size(); idx++)
     {
       say("N " + std::to_string(idx) + "\n");
+      Out dummy;
       try
       {
-        Out dummy;
-        runCall(w, c.noise[(size_t)idx], dummy, true);
+        runCall(w, noise[idx], dummy, true);
       }
       catch (const LibExit&)
       {
-        // a noise call that ends in messageAbort is a failing call
+        dummy.tag = "abort"; // a noise call that ends in messageAbort is a failing call
       }
       catch (const std::exception&)
       {
         o.noiseThrew = 1;
       }
+      say("T " + std::to_string(idx) + " " + dummy.tag + "\n");
     }
     say("O\n");
     o.digest = (long)(hashText(worldDigest(w)) >> 1);
@@ -1068,9 +1076,10 @@ struct ChildResult
   int lastNoise = -1;    // index of the last noise call started
   bool reachedObs = false;
   int wstatus = 0;
+  std::map<int, std::string> tags;
   Out out;
 };
-static ChildResult runChild(const HistCase& c, const std::vector<int>& noiseIdx)
+static ChildResult runChild(const HistCase& c, const std::vector<Call>& noise)
 {
   ChildResult r;
   int fd[2];
@@ -1081,7 +1090,7 @@ static ChildResult runChild(const HistCase& c, const std::vector<int>& noiseIdx)
   if (pid == 0)
   {
     ::close(fd[0]);
-    childMain(c, noiseIdx, fd[1]);
+    childMain(c, noise, fd[1]);
     _exit(0);
   }
   ::close(fd[1]);
@@ -1104,6 +1113,11 @@ static ChildResult runChild(const HistCase& c, const std::vector<int>& noiseIdx)
     std::string line = all.substr(pos, nl - pos);
     pos = nl + 1;
     if (line.rfind("N ", 0) == 0) r.lastNoise = atoi(line.c_str() + 2);
+    else if (line.rfind("T ", 0) == 0)
+    {
+      size_t sp = line.find(' ', 2);
+      if (sp != std::string::npos) r.tags[atoi(line.c_str() + 2)] = line.substr(sp + 1);
+    }
     else if (line == "O") r.reachedObs = true;
     else if (line == "R")
     {
@@ -1142,6 +1156,29 @@ static std::string compareOut(const Out& a, const Out& b, bool& soft)
   return fmt("value #%zu: %.17g (fresh) vs %.17g (after history), magnitude of the result %.3g", wk, a.dv[wk], b.dv[wk], scale);
 }
 
+static std::string withTag(const std::string& name, const std::string& tag) { return tag.empty() ? name : name + ":" + tag; }
+
+// Name of the single noise call that is enough to make 'differs' true ("combination" when none is).  A call executed
+// under a global switch is named after the nested call when that call alone has the same effect.
+template<class F> static std::string findCulprit(const HistCase& c, F differs)
+{
+  for (auto& cand : c.noise)
+  {
+    ChildResult S = runChild(c, {cand});
+    if (!differs(S)) continue;
+    std::string tag = S.tags.count(0) ? S.tags[0] : std::string();
+    if (cand.kind == K_GLOBAL && (cand.a & 7) != 5)
+    {
+      Call n = nestedOf(cand);
+      ChildResult S2 = runChild(c, {n});
+      if (differs(S2)) return withTag(callName(n), S2.tags.count(0) ? S2.tags[0] : std::string());
+      return withTag(callName(n), tag) + "@" + callName(cand);
+    }
+    return withTag(callName(cand), tag);
+  }
+  return "combination";
+}
+
 static void runHist(const HistCase& c, Ctx& ctx)
 {
   std::string obs = callName(c.obs);
@@ -1152,8 +1189,6 @@ static void runHist(const HistCase& c, Ctx& ctx)
     ctx.label("noise:" + std::string(kindName(n.kind)));
     if (isFailingKind(n.kind) || isSharedKind(n.kind)) nt = true;
   }
-  std::vector<int> all;
-  for (int k = 0; k < (int)c.noise.size(); k++) all.push_back(k);
 
   ChildResult A = runChild(c, {});
   if (!A.complete)
@@ -1161,14 +1196,19 @@ static void runHist(const HistCase& c, Ctx& ctx)
     ctx.fail("fresh-crash:" + obs, fmt("the observed call alone does not complete in a fresh process (wait status 0x%x)", A.wstatus));
     return;
   }
-  ChildResult B = runChild(c, all);
+  ChildResult B = runChild(c, c.noise);
   if (!B.complete)
   {
     if (B.reachedObs)
-      ctx.fail("hist-crash:" + obs, fmt("the observed call completes in a fresh process and crashes after the history (wait status 0x%x)", B.wstatus));
+    {
+      std::string who = findCulprit(c, [&](const ChildResult& S) { return !S.complete && S.reachedObs; });
+      ctx.fail("hist-crash:after-" + who + ":" + obs,
+               fmt("the observed call completes in a fresh process and crashes after the history (wait status 0x%x)", B.wstatus));
+    }
     else
     {
       std::string nk = (B.lastNoise >= 0) ? callName(c.noise[(size_t)B.lastNoise]) : std::string("construction");
+      if (B.lastNoise >= 0 && c.noise[(size_t)B.lastNoise].kind == K_GLOBAL) nk = callName(nestedOf(c.noise[(size_t)B.lastNoise])) + "@" + nk;
       ctx.fail("noise-crash:" + nk, fmt("the process dies inside noise call #%d (wait status 0x%x)", B.lastNoise, B.wstatus));
     }
     return;
@@ -1179,17 +1219,14 @@ static void runHist(const HistCase& c, Ctx& ctx)
     return;
   }
   ctx.label(A.out.status == 0 ? "obs-completed" : "obs-aborted");
+  for (auto& t : B.tags)
+    if (!t.second.empty()) ctx.label("noise-outcome:" + t.second);
   bool soft = false;
   std::string diff = compareOut(A.out, B.out, soft);
   if (diff.empty() && A.out.digest != B.out.digest)
   {
-    // a noise call changed the public state of an argument without changing the result: find which
-    std::string who = "several";
-    for (int k : all)
-    {
-      ChildResult S = runChild(c, {k});
-      if (S.complete && S.out.digest != A.out.digest) { who = callName(c.noise[(size_t)k]); break; }
-    }
+    // a noise call changed the public state of an argument without changing the result
+    std::string who = findCulprit(c, [&](const ChildResult& S) { return S.complete && S.out.digest != A.out.digest; });
     ctx.fail("noise-changes-arguments:" + who, "a call meant to leave the shared objects unchanged modified their public state");
     return;
   }
@@ -1204,20 +1241,359 @@ static void runHist(const HistCase& c, Ctx& ctx)
     ctx.inconclusive("roundoff-sized-difference");
     return;
   }
-  // which single noise call is enough to change the result?
-  std::string who = "combination";
-  for (int k : all)
-  {
-    ChildResult S = runChild(c, {k});
+  std::string who = findCulprit(c, [&](const ChildResult& S) {
     bool s2 = false;
-    if (!S.complete || !compareOut(A.out, S.out, s2).empty())
-    {
-      who = callName(c.noise[(size_t)k]);
-      break;
-    }
-  }
+    return !S.complete || !compareOut(A.out, S.out, s2).empty();
+  });
   ctx.fail("hist:after-" + who + ":" + obs, diff);
 }
 VERIF_SUB(history, HistCase, genHist, runHist);
+
+
+// ===================================================================== sub: vectort =======
+// Model-based test of the copy-on-write vectors: one std::vector per handle is the model.
+//
+// Iterators kept across operations follow these rules (each is at least as permissive as what a caller of a
+// copy-on-write container can expect, and never more permissive than std::vector):
+//  * an iterator of handle h is dropped from the model as soon as h is resized, assigned, swapped, cleared...;
+//  * a const iterator of h is also dropped by any non-const access to h (that is when a shared handle takes its copy);
+//  * nothing done to *another* handle may invalidate it: after every operation the address an iterator designates
+//    must still be the address of the same element of h (compared as addresses, nothing is dereferenced);
+//  * writing through a non-const iterator / reference obtained *before* h was copied is reported under its own key
+//    ("vectort:write-through-iterator-taken-before-copy"): with std::vector the copy is unaffected.
+struct VOp
+{
+  int op = 0, h = 0, h2 = 0, pos = 0, n = 0;
+  double v = 0;
+  template<class A> void io(A& a) { a("op", op)("h", h)("h2", h2)("pos", pos)("n", n)("v", v); }
+};
+enum
+{
+  V_NEW_EMPTY = 0, V_NEW_COUNT, V_NEW_COPY, V_NEW_STD, V_ASSIGN, V_ASSIGN_STD, V_MOVE_ASSIGN, V_PUSH_BACK, V_PUSH_FRONT, V_INSERT, V_INSERT_N,
+  V_REMOVE, V_REMOVE_N, V_ERASE_CIT, V_ERASE_RANGE_CIT, V_INSERT_RANGE_CIT, V_RESIZE, V_RESIZE_V, V_FILL, V_SWAP, V_CLEAR, V_WRITE_IDX,
+  V_WRITE_AT, V_SETAT, V_WRITE_FRONTBACK, V_WRITE_DATA, V_WRITE_BEGIN, V_TAKE_CIT, V_TAKE_MIT, V_WRITE_MIT, V_DESTROY, V_APPEND, V_APPEND_VEC,
+  V_RESERVE, V_ASSIGN_RANGE, V_NUM_ADD, V_NUM_SCALAR, V_SELF_ASSIGN, V_NOPS
+};
+static const char* vopName(int o)
+{
+  static const char* n[] = {"new-empty", "new-count", "copy-ctor", "from-std", "assign", "assign-std", "move-assign", "push_back", "push_front",
+                            "insert", "insert-n", "remove", "remove-n", "erase-const-iterator", "erase-const-range", "insert-range-const-iterator",
+                            "resize", "resize-value", "fill", "swap", "clear", "write-index", "write-at", "setAt", "write-front-back", "write-data",
+                            "write-begin", "take-const-iterator", "take-iterator", "write-iterator", "destroy", "append", "append-vector",
+                            "reserve", "assign-range", "numeric-vector-op", "numeric-scalar-op", "self-assign"};
+  return (o >= 0 && o < V_NOPS) ? n[o] : "?";
+}
+struct VecCase
+{
+  int kind = 0;         // 0: VectorNumT<double>, 1: VectorT<int>
+  int iterAfterCopy = 0; // operations of the last rule above are executed
+  std::vector<VOp> ops;
+  template<class A> void io(A& a) { a("kind", kind)("iterAfterCopy", iterAfterCopy)("ops", ops); }
+};
+static VecCase genVec()
+{
+  VecCase c;
+  c.kind = G::i(0, 1);
+  c.iterAfterCopy = G::pct(25) ? 1 : 0;
+  int n = G::sz(3, 40);
+  for (int k = 0; k < n; k++)
+  {
+    VOp o;
+    o.op = G::i(0, V_NOPS - 1);
+    // copies are what the test is about: make them frequent
+    if (G::pct(20)) o.op = G::pick<int>({V_NEW_COPY, V_ASSIGN, V_NEW_COPY, V_ASSIGN, V_SWAP, V_MOVE_ASSIGN});
+    o.h = G::i(0, 7);
+    o.h2 = G::i(0, 7);
+    o.pos = G::i(0, 9);
+    o.n = G::i(0, 6);
+    o.v = (double)G::i(-9, 9);
+    c.ops.push_back(o);
+  }
+  return c;
+}
+
+template<class V, class T> struct VecRun
+{
+  struct H
+  {
+    std::unique_ptr<V> v;
+    std::vector<T> m;
+    bool cOk = false, mOk = false, copiedSince = false;
+    typename V::const_iterator cit;
+    typename V::iterator mit;
+    size_t cpos = 0, mpos = 0;
+  };
+  std::vector<H> hs;
+  Ctx& ctx;
+  bool hazard = false;
+  explicit VecRun(Ctx& c) : ctx(c) {}
+
+  static T val(double v) { return (T)v; }
+  void drop(H& h) { h.cOk = h.mOk = false; }
+  void touched(H& h) { h.cOk = false; } // non-const access
+  bool shared(size_t i) const
+  {
+    for (size_t k = 0; k < hs.size(); k++)
+      if (k != i && hs[k].v->getVectorPtr() == hs[i].v->getVectorPtr()) return true;
+    return false;
+  }
+  bool verify(const std::string& opn)
+  {
+    for (size_t k = 0; k < hs.size(); k++)
+    {
+      const V& v = *hs[k].v;
+      const std::vector<T>& m = hs[k].m;
+      bool same = v.size() == m.size();
+      for (size_t i = 0; same && i < m.size(); i++) same = (v[i] == m[i]);
+      if (!same)
+      {
+        std::string key = hazard ? "vectort:write-through-iterator-taken-before-copy" : "vectort:" + opn;
+        ctx.fail(key, fmt("after '%s': handle #%zu has %zu elements, the model %zu%s", opn.c_str(), k, v.size(), m.size(),
+                          same ? "" : " (or an element differs)"));
+        return false;
+      }
+      if (hs[k].cOk && !hazard && &*hs[k].cit != v.constData() + hs[k].cpos)
+      {
+        ctx.fail("vectort:const-iterator-invalidated:" + opn,
+                 fmt("a const iterator of handle #%zu no longer designates its element after '%s' on another handle", k, opn.c_str()));
+        return false;
+      }
+    }
+    return true;
+  }
+  // erase / insert through const iterators of a handle that shares its storage may corrupt memory: try it in a child first
+  template<class F> bool safeInChild(F f, const std::string& opn)
+  {
+    fflush(nullptr);
+    pid_t pid = fork();
+    if (pid == 0)
+    {
+      stats().outPrefix.clear();
+      __sanitizer_set_death_callback(noopDeath);
+      if (!verbose()) { int nul = open("/dev/null", O_WRONLY); if (nul >= 0) dup2(nul, 2); }
+      _exit(f() ? 0 : 1);
+    }
+    int st = 0;
+    while (waitpid(pid, &st, 0) < 0 && errno == EINTR) {}
+    if (WIFEXITED(st) && WEXITSTATUS(st) == 0) return true;
+    ctx.fail("vectort:" + opn + ":shared-storage", fmt("'%s' on a handle that shares its storage %s (wait status 0x%x)", opn.c_str(),
+                                                      (WIFEXITED(st) && WEXITSTATUS(st) == 1) ? "gives a wrong content" : "crashes", st));
+    return false;
+  }
+
+  void run(const VecCase& c)
+  {
+    hs.emplace_back();
+    hs[0].v.reset(new V());
+    for (const VOp& o : c.ops)
+    {
+      size_t a = (size_t)o.h % hs.size(), b = (size_t)o.h2 % hs.size();
+      H& A = hs[a];
+      std::string opn = vopName(o.op);
+      ctx.at(opn);
+      T x = val(o.v);
+      size_t sz = A.m.size();
+      size_t pos = sz ? (size_t)o.pos % sz : 0;
+      switch (o.op)
+      {
+        case V_NEW_EMPTY: if (hs.size() < 8) { hs.emplace_back(); hs.back().v.reset(new V()); } break;
+        case V_NEW_COUNT: if (hs.size() < 8) { hs.emplace_back(); hs.back().v.reset(new V((size_t)o.n, x)); hs.back().m.assign((size_t)o.n, x); } break;
+        case V_NEW_COPY:
+          if (hs.size() < 8)
+          {
+            H n;
+            n.v.reset(new V(*A.v));
+            n.m = A.m;
+            A.copiedSince = true;
+            hs.push_back(std::move(n));
+          }
+          break;
+        case V_NEW_STD: if (hs.size() < 8) { H n; n.v.reset(new V(A.m)); n.m = A.m; hs.push_back(std::move(n)); } break;
+        case V_ASSIGN:
+          if (a == b) break;
+          *A.v = *hs[b].v;
+          A.m = hs[b].m;
+          drop(A);
+          A.copiedSince = false;
+          hs[b].copiedSince = true;
+          break;
+        case V_SELF_ASSIGN: { V& r = *A.v; *A.v = r; break; }
+        case V_ASSIGN_STD: { std::vector<T> t((size_t)o.n, x); *A.v = t; A.m = t; drop(A); break; }
+        case V_MOVE_ASSIGN:
+          if (a == b) break;
+          *A.v = std::move(*hs[b].v);
+          A.m = hs[b].m;
+          drop(A);
+          drop(hs[b]);
+          // the source is "valid but unspecified": give it a known content again
+          *hs[b].v = V();
+          hs[b].m.clear();
+          break;
+        case V_PUSH_BACK: A.v->push_back(x); A.m.push_back(x); drop(A); break;
+        case V_PUSH_FRONT: A.v->push_front(x); A.m.insert(A.m.begin(), x); drop(A); break;
+        case V_INSERT: { size_t p = (size_t)o.pos % (sz + 1); A.v->insert(p, x); A.m.insert(A.m.begin() + (long)p, x); drop(A); break; }
+        case V_INSERT_N: { size_t p = (size_t)o.pos % (sz + 1); A.v->insert(p, (size_t)o.n, x); A.m.insert(A.m.begin() + (long)p, (size_t)o.n, x); drop(A); break; }
+        case V_REMOVE: if (sz) { A.v->remove(pos); A.m.erase(A.m.begin() + (long)pos); drop(A); } break;
+        case V_REMOVE_N:
+          if (sz)
+          {
+            size_t cnt = std::min((size_t)o.n, sz - pos);
+            A.v->remove(pos, cnt);
+            A.m.erase(A.m.begin() + (long)pos, A.m.begin() + (long)(pos + cnt));
+            drop(A);
+          }
+          break;
+        case V_ERASE_CIT:
+        case V_ERASE_RANGE_CIT:
+          if (sz)
+          {
+            size_t cnt = (o.op == V_ERASE_CIT) ? 1 : std::min((size_t)o.n, sz - pos);
+            std::vector<T> want = A.m;
+            want.erase(want.begin() + (long)pos, want.begin() + (long)(pos + cnt));
+            auto doit = [&](V& v) {
+              if (o.op == V_ERASE_CIT) v.erase(v.cbegin() + (long)pos);
+              else v.erase(v.cbegin() + (long)pos, v.cbegin() + (long)(pos + cnt));
+            };
+            if (shared(a))
+            {
+              ctx.label("const-iterator-op-on-shared");
+              if (!safeInChild([&]() { doit(*A.v); return std::vector<T>(A.v->getVector()) == want; }, opn)) return;
+            }
+            doit(*A.v);
+            A.m = want;
+            drop(A);
+          }
+          break;
+        case V_INSERT_RANGE_CIT:
+          if (a != b)
+          {
+            size_t p = (size_t)o.pos % (sz + 1);
+            std::vector<T> want = A.m;
+            want.insert(want.begin() + (long)p, hs[b].m.begin(), hs[b].m.end());
+            auto doit = [&](V& v, const V& src) { v.insert(v.cbegin() + (long)p, src.cbegin(), src.cend()); };
+            if (shared(a))
+            {
+              ctx.label("const-iterator-op-on-shared");
+              if (!safeInChild([&]() { doit(*A.v, *hs[b].v); return std::vector<T>(A.v->getVector()) == want; }, opn)) return;
+            }
+            doit(*A.v, *hs[b].v);
+            A.m = want;
+            drop(A);
+          }
+          break;
+        case V_RESIZE: A.v->resize((size_t)o.n); A.m.resize((size_t)o.n); drop(A); break;
+        case V_RESIZE_V: A.v->resize((size_t)o.n, x); A.m.resize((size_t)o.n, x); drop(A); break;
+        case V_FILL:
+          A.v->fill(x, (size_t)o.n);
+          if (o.n > 0) A.m.resize((size_t)o.n);
+          std::fill(A.m.begin(), A.m.end(), x);
+          drop(A);
+          break;
+        case V_SWAP:
+          if (a == b) break;
+          A.v->swap(*hs[b].v);
+          std::swap(A.m, hs[b].m);
+          drop(A);
+          drop(hs[b]);
+          std::swap(A.copiedSince, hs[b].copiedSince);
+          break;
+        case V_CLEAR: A.v->clear(); A.m.clear(); drop(A); break;
+        case V_WRITE_IDX: if (sz) { (*A.v)[pos] = x; A.m[pos] = x; touched(A); } break;
+        case V_WRITE_AT: if (sz) { A.v->at(pos) = x; A.m[pos] = x; touched(A); } break;
+        case V_SETAT: if (sz) { A.v->setAt((int)pos, x); A.m[pos] = x; touched(A); } break;
+        case V_WRITE_FRONTBACK: if (sz) { A.v->front() = x; A.m.front() = x; A.v->back() = x + 1; A.m.back() = x + 1; touched(A); } break;
+        case V_WRITE_DATA: if (sz) { A.v->data()[pos] = x; A.m[pos] = x; touched(A); } break;
+        case V_WRITE_BEGIN: if (sz) { *(A.v->begin() + (long)pos) = x; A.m[pos] = x; touched(A); } break;
+        case V_TAKE_CIT:
+          if (sz)
+          {
+            const V& cv = *A.v;
+            A.cit = cv.begin() + (long)pos;
+            A.cpos = pos;
+            A.cOk = true;
+          }
+          break;
+        case V_TAKE_MIT:
+          if (sz)
+          {
+            A.mit = A.v->begin() + (long)pos;
+            A.mpos = pos;
+            A.mOk = true;
+            A.cOk = false;
+            A.copiedSince = false;
+          }
+          break;
+        case V_WRITE_MIT:
+          if (A.mOk && (!A.copiedSince || c.iterAfterCopy))
+          {
+            if (A.copiedSince) { hazard = true; ctx.label("write-through-iterator-taken-before-copy"); }
+            *A.mit = x;
+            A.m[A.mpos] = x;
+            A.cOk = false;
+          }
+          break;
+        case V_DESTROY: if (hs.size() > 1) hs.erase(hs.begin() + (long)a); break;
+        case V_APPEND: *A.v << x; A.m.push_back(x); drop(A); break;
+        case V_APPEND_VEC:
+        {
+          std::vector<T> src = hs[b].m; // (a == b: the vector appended to itself)
+          if (a == b) break;
+          *A.v << *hs[b].v;
+          A.m.insert(A.m.end(), src.begin(), src.end());
+          drop(A);
+          break;
+        }
+        case V_RESERVE: A.v->reserve(sz + (size_t)o.n * 8); drop(A); break;
+        case V_ASSIGN_RANGE: if (a != b) { A.v->assign(hs[b].m.begin(), hs[b].m.end()); A.m = hs[b].m; drop(A); } break;
+        case V_NUM_ADD:
+        case V_NUM_SCALAR:
+          if constexpr (std::is_same<V, VectorNumT<T>>::value)
+          {
+            if (o.op == V_NUM_ADD)
+            {
+              if (hs[b].m.size() != sz) break;
+              std::vector<T> src = hs[b].m;
+              if (o.n & 1) { A.v->add(*hs[b].v); for (size_t i = 0; i < sz; i++) A.m[i] = A.m[i] + src[i]; }
+              else { A.v->multiply(*hs[b].v); for (size_t i = 0; i < sz; i++) A.m[i] = A.m[i] * src[i]; }
+            }
+            else
+            {
+              if (o.n & 1) { A.v->add(x); for (auto& e : A.m) e = e + x; }
+              else { A.v->multiply(x); for (auto& e : A.m) e = e * x; }
+            }
+            touched(A);
+          }
+          break;
+        default: break;
+      }
+      if (!verify(opn)) return;
+    }
+    // destroy the handles one by one (generated order is the creation order reversed or not), checking the survivors
+    while (hs.size() > 1)
+    {
+      hs.erase(hs.begin() + (long)((c.ops.size() + hs.size()) % hs.size()));
+      if (!verify("destroy")) return;
+    }
+  }
+};
+static void runVec(const VecCase& c, Ctx& ctx)
+{
+  ctx.label(c.kind == 0 ? "VectorNumT<double>" : "VectorT<int>");
+  int copies = 0;
+  for (auto& o : c.ops)
+    if (o.op == V_NEW_COPY || o.op == V_ASSIGN || o.op == V_MOVE_ASSIGN || o.op == V_SWAP) copies++;
+  ctx.nontrivial(copies > 0);
+  if (c.kind == 0)
+  {
+    VecRun<VectorNumT<double>, double> r(ctx);
+    r.run(c);
+  }
+  else
+  {
+    VecRun<VectorT<int>, int> r(ctx);
+    r.run(c);
+  }
+}
+VERIF_SUB(vectort, VecCase, genVec, runVec);
 
 VERIF_MAIN()
